@@ -704,7 +704,9 @@ pub fn api_harness(spec: &RunSpec) -> RunOutput {
     let mut stage = 0u8;
     let mut ready = Vec::new();
     let mut parked = Vec::new();
-    let clean_cause = matches!(fault_kind.as_str(), "shutdown" | "drop_handles" | "broker_shutdown" | "shutdown_conn");
+    let clean_cause = matches!(fault_kind.as_str(), "shutdown" | "drop_handles" | "broker_shutdown" | "shutdown_conn" | "broker_shutdown+send_error");
+    // Exemptions that concern a broker shutdown apply to the combined cause too.
+    let broker_shutdown_cause = fault_kind.starts_with("broker_shutdown");
 
     loop {
         if !w.violations.is_empty() || w.harness_error.is_some() || !log.borrow().violations.is_empty() {
@@ -753,6 +755,7 @@ pub fn api_harness(spec: &RunSpec) -> RunOutput {
                         "shutdown" => "clean_shutdown",
                         "drop_handles" => "last_handle_dropped",
                         "broker_shutdown" => "broker_shutdown",
+                        "broker_shutdown+send_error" => "broker_shutdown_with_send_failure",
                         _ => "broker_shutdown_conn",
                     }).or_insert(0) += 1;
                     match fault_kind.as_str() {
@@ -780,7 +783,14 @@ pub fn api_harness(spec: &RunSpec) -> RunOutput {
                             }
                             w.spawner.borrow_mut().retain(|(_, i, _)| i.client != v);
                         }
-                        "broker_shutdown" => {
+                        "broker_shutdown" | "broker_shutdown+send_error" => {
+                            if fault_kind.ends_with("send_error") {
+                                // The victim's sending direction breaks while the broker shuts down:
+                                // its next send (typically its own Shutdown) fails.
+                                let mut ctl = w.clients[v].ctl.borrow_mut();
+                                let now = ctl.ops;
+                                ctl.fail_at = Some((now, FaultMode::SendError));
+                            }
                             for c in &w.clients {
                                 c.ctx.client_faulted.set(true);
                             }
@@ -912,14 +922,29 @@ pub fn api_harness(spec: &RunSpec) -> RunOutput {
             let victim = fault_client == Some(i);
             let fired = c.ctl.borrow().fired;
             match &s.run_result {
+                // "Ok for the clean cases, the transport error otherwise": a transport that failed
+                // while the client was sending, or before the broker's Shutdown reached the client,
+                // cannot have ended in a completed shutdown handshake.
+                Some(Ok(())) if fired && (c.ctl.borrow().fired_on_send || !c.ctl.borrow().shutdown_seen_at_fire) => {
+                    let ctl = c.ctl.borrow();
+                    vs.push(Violation::new(
+                        "client.run-ok-after-transport-failure",
+                        &[Prop::C15],
+                        format!(
+                            "Client::run of client{i} returned Ok although its transport failed (on a {} operation, broker's Shutdown {} at that point; fault={fault_kind}@{fault_at})",
+                            if ctl.fired_on_send { "send-side" } else { "receive" },
+                            if ctl.shutdown_seen_at_fire { "already received" } else { "not yet received" },
+                        ),
+                    ));
+                }
                 Some(Ok(())) => {}
                 Some(Err(e)) if victim && fired && (e.contains("Transport(Injected)") || e.contains("Transport(Eof)")) => {}
                 // The broker stopped while this client was still being accepted: the connection was
                 // never registered, so there is no shutdown handshake to complete.
-                Some(Err(_)) if fault_kind == "broker_shutdown" && matches!(&s.conn_result, Some(Err(c)) if c.starts_with("accept:")) => {}
-                Some(Err(_)) if fault_kind == "broker_shutdown" && !s.raw.is_some_and(|r| w.registered.contains(&r)) => {}
+                Some(Err(_)) if broker_shutdown_cause && matches!(&s.conn_result, Some(Err(c)) if c.starts_with("accept:")) => {}
+                Some(Err(_)) if broker_shutdown_cause && !s.raw.is_some_and(|r| w.registered.contains(&r)) => {}
                 // A broker shutdown racing the handshake, or a fault during the handshake.
-                Some(Err(e)) if e.starts_with("connect:") && (fired || fault_kind == "broker_shutdown") => {}
+                Some(Err(e)) if e.starts_with("connect:") && (fired || broker_shutdown_cause) => {}
                 Some(Err(e)) => {
                     let rule = if e.contains("UnexpectedMessageReceived") {
                         "client.unexpected-message"
@@ -1064,7 +1089,7 @@ pub fn api_harness(spec: &RunSpec) -> RunOutput {
             h.u64(fault_client.unwrap_or(0) as u64);
             h.str(&fault_kind);
             h.u64(fault_at);
-            st.fault_point = Some((h.0, base, 7 * (n + 1)));
+            st.fault_point = Some((h.0, base, 8 * (n + 1)));
         }
     }
     let victim_ops = fault_client.and_then(|v| w.clients.get(v)).map(|c| c.ctl.borrow().ops).unwrap_or(0);
